@@ -31,7 +31,9 @@ type CEnv struct {
 	heap       map[string]*Term
 	old        bool
 	forceFinal bool
-	scratch    *State // state receiving facts generated during evaluation
+	scratch    *State         // state receiving facts generated during evaluation
+	exercised  map[*Node]bool // top-level each-forms that matched an event on this path
+	seenEach   map[*Node]bool // top-level each-forms met
 	depth      int
 }
 
@@ -517,6 +519,10 @@ func (env *CEnv) eventForm(n *Node) *Term {
 	if n.Op == "each" {
 		acc = TTrue
 	}
+	top := n.Op == "each" && env.ref < 0 && env.seenEach != nil
+	if top {
+		env.seenEach[n] = true
+	}
 	for i := lo; i < hi; i++ {
 		e := trace[i]
 		if !kindMatches(n.S, e.Kind) {
@@ -544,6 +550,9 @@ func (env *CEnv) eventForm(n *Node) *Term {
 			body = e2.term(n.Body)
 		}
 		if n.Op == "each" {
+			if top && cond != TFalse {
+				env.exercised[n] = true
+			}
 			acc = And(acc, Implies(cond, body))
 		} else {
 			acc = Or(acc, And(cond, body))
@@ -776,6 +785,16 @@ func (env *CEnv) call(n *Node) cval {
 		// optional leading C0/space, tab/newline/CR ignored, then a scheme
 		// "alpha (alnum|+|-|.)* :" or two slashes/backslashes.
 		return cval{V: Builtin("str.in_re", SBool, env.term(n.Kids[0]), &Term{Op: offsiteRegex, S: "RegLan"})}
+	case "offsite_cleaned":
+		// offsite_cleaned(s): where a browser ends up when s is sent through
+		// net/http.Redirect, which path.Clean-s a scheme-less target first: Clean
+		// only removes segments, so the result starts with "/\" (read as "//" by
+		// browsers) exactly when some surviving segment of the path part starts
+		// with a backslash - over-approximated by "/\" occurring before the
+		// first '?'. Everything offsite(s) covers stays covered.
+		s := env.term(n.Kids[0])
+		return cval{V: Or(Builtin("str.in_re", SBool, s, &Term{Op: offsiteRegex, S: "RegLan"}),
+			Builtin("str.in_re", SBool, s, &Term{Op: `(re.++ (re.* (re.diff re.allchar (str.to_re "?"))) (str.to_re "/\u{5c}") re.all)`, S: "RegLan"}))}
 	case "implements":
 		// implements(x, "pkg.Iface"): the dynamic-type predicate the executor uses for x.(pkg.Iface)
 		x := env.term(n.Kids[0])
@@ -988,6 +1007,25 @@ func fromRequest(t *Term) bool {
 	return false
 }
 
+// rawFromRequest: request text occurs in t outside url.QueryEscape / Values.Encode.
+func rawFromRequest(t *Term) bool {
+	if t.Sym {
+		op := strings.Trim(t.Op, "|")
+		if op == "query_escape" || op == "values_encode" {
+			return false
+		}
+		if op == "form_value" || op == "cs_get" || strings.HasPrefix(op, "f!url.URL.") || strings.HasPrefix(op, "f!http.Request.") || strings.HasPrefix(op, "val!Get") || op == "header_get" {
+			return true
+		}
+	}
+	for _, a := range t.Args {
+		if rawFromRequest(a) {
+			return true
+		}
+	}
+	return false
+}
+
 func queryOnly(t *Term) bool {
 	var segs []*Term
 	var flat func(t *Term)
@@ -998,9 +1036,15 @@ func queryOnly(t *Term) bool {
 				flat(a)
 			}
 		case t.Sym && strings.Trim(t.Op, "|") == "path_join":
+			// path.Join cleans the whole result ("..", "//"), so request text inside it
+			// can only stay in the query part when it was escaped (no '/' left in it)
 			for i, a := range t.Args {
 				if i > 0 {
 					segs = append(segs, StrLit("/"))
+				}
+				if rawFromRequest(a) {
+					segs = append(segs, &Term{Op: "unescaped!request!text", S: SStr, Sym: true, Args: []*Term{a}})
+					continue
 				}
 				flat(a)
 			}
@@ -1016,6 +1060,9 @@ func queryOnly(t *Term) bool {
 				seenQ = true
 			}
 			continue
+		}
+		if s.Sym && s.Op == "unescaped!request!text" {
+			return false
 		}
 		if fromRequest(s) && !seenQ {
 			return false
